@@ -26,6 +26,7 @@ func main() {
 	max := fs.Int("max", 0, "behaviours per configuration (0 = all)")
 	maxslow := fs.Int("maxslow", 0, "same for slow configurations")
 	bindings := fs.Int("bindings", 1, "c08: operand bindings per behaviour on eddsa / schnorr-ed")
+	concrounds := fs.Int("concrounds", 0, "c08: rounds of the concurrent-verification workload (0 = default)")
 	mode := fs.String("mode", "", "c09: bls | tbls | bdn | cosi")
 	exh := fs.Int("exh", 2, "c09: combinations replayed exhaustively (-1 = all)")
 	pairmax := fs.Int("pairmax", 0, "c09 bdn: behaviours per combination with the pairing-level final step (0 = all)")
@@ -39,7 +40,7 @@ func main() {
 	var err error
 	switch drv {
 	case "c08":
-		err = sig.RunC08(sig.C08Config{Prop: *prop, In: *in, Seed: *seed, Tier: *tier, Groups: *groups, Max: *max, MaxSlow: *maxslow, Bindings: *bindings}, res)
+		err = sig.RunC08(sig.C08Config{Prop: *prop, In: *in, Seed: *seed, Tier: *tier, Groups: *groups, Max: *max, MaxSlow: *maxslow, Bindings: *bindings, ConcRounds: *concrounds}, res)
 	case "c09":
 		err = sig.RunC09(sig.C09Config{Prop: *prop, Mode: *mode, In: *in, Seed: *seed, Tier: *tier, Combos: *groups, Exh: *exh, Max: *max, MaxSlow: *maxslow, PairMax: *pairmax, MaskMax: *maskmax, NS: *ns}, res)
 	case "masktrace":
